@@ -249,6 +249,188 @@ class TimeRoundTrip(Obligation):
         return {'obs': obs, 'violations': viol, 'start': (self.year, j, H)}
 
 
+class _Fields(dict):
+    """stand-in for the structured time-header array: one array per field;
+    assigning to a field copies the values, as a structured array does"""
+
+    def __setitem__(self, k, v):
+        from verifx import shim
+        a = np.array(v, dtype=object, copy=True)
+        dict.__setitem__(self, k, a.view(shim.SymNDArray))
+
+
+class LatBndTimeRoundTrip(TimeRoundTrip):
+    """lateral-boundary writer: the statements that fill its time header
+    (date/time reduction, end = begin + 1 h with day roll-over), composed
+    with the reader's ConvertCAMxTime"""
+    encoding_fragile = True
+    replay_only_labels = ()
+
+    def __init__(self, year, T):
+        TimeRoundTrip.__init__(self, year, T, False)
+        self.name = 'latbnd-time-roundtrip[%d,T=%d]' % (year, T)
+
+    def kernel(self):
+        if self._k is None:
+            sp = loader.TwinSpace(objfloat='all')
+            run, info = loader.slice_kernel(
+                'PseudoNetCDF.camxfiles.lateral_boundary.Write',
+                'ncf2lateral_boundary', ['date', 'time', 'time_hdr[]'],
+                guards=False, space=sp, provided=['ncffile', 'time_hdr'])
+            wmod = sp.twin('PseudoNetCDF.camxfiles.lateral_boundary.Write')
+            conv = sp.twin('PseudoNetCDF.ArrayTransforms').ConvertCAMxTime
+            self._k = (run, info, wmod, conv, sp)
+            self._info = info
+            self._space = sp
+        return self._k
+
+    def sym(self, ctx, h):
+        run, info, wmod, conv, sp = self.kernel()
+        sd.YEAR_RANGE = (self.year - 1, self.year + 1)
+        sd.FORK_YEARS = True
+        _valid_date(ctx, 'd', self.year, self.year)
+        j = symx.SymInt(ctx.inputs['d_j'])
+        H = ctx.int('t_H', 0, 23)
+        if self.year == 2069:
+            ctx.assume(ctx.inputs['d_j'] <= 364, check=False)
+        flags = self._flags(j, H)
+        tf = np.empty((self.T, 1, 2), dtype=object)
+        for t, (b, e) in enumerate(flags):
+            tf[t, 0, 0], tf[t, 0, 1] = b
+        from verifx import shim
+        nc = _NCF()
+        nc.variables = {'TFLAG': tf.view(shim.SymNDArray)}
+        nc.dimensions = {'TSTEP': range(self.T)}
+        env = dict(wmod.__dict__)
+        env['ncffile'] = nc
+        env['time_hdr'] = _Fields()
+        import sys
+        sys.setprofile(sp.profile())
+        try:
+            try:
+                out = run(env)
+                th = out['time_hdr']
+                args = [np.array(list(th[k]), dtype=object)
+                        .view(shim.SymNDArray)
+                        for k in ('ibdate', 'btime', 'iedate', 'etime')]
+            except Exception as ex:
+                h.candidate('writer-raised:' + type(ex).__name__,
+                            repr(ex)[:200])
+                return
+            try:
+                tflag2 = conv(args[0], args[1], 1)
+                etflag2 = conv(args[2], args[3], 1)
+            except Exception as ex:
+                h.candidate('reader-raised:' + type(ex).__name__,
+                            repr(ex)[:200])
+                return
+        finally:
+            sys.setprofile(None)
+        for t, (b, e) in enumerate(flags):
+            h.claim('TFLAG-date[%d]' % t,
+                    common.eq_expr(tflag2[t, 0, 0], b[0]))
+            h.claim('TFLAG-time[%d]' % t,
+                    common.eq_expr(tflag2[t, 0, 1], b[1]))
+            h.claim('ETFLAG-date[%d]' % t,
+                    common.eq_expr(etflag2[t, 0, 0], e[0]))
+            h.claim('ETFLAG-time[%d]' % t,
+                    common.eq_expr(etflag2[t, 0, 1], e[1]))
+        h.observe('tflag', [[tflag2[t, 0, 0], tflag2[t, 0, 1]]
+                            for t in range(self.T)])
+
+    def real(self, inputs):
+        """write a real lateral-boundary file with the library writer and
+        read it back with the library reader"""
+        import os
+        import tempfile
+        import warnings
+        j = _g(inputs, 'd_j', 1)
+        H = _g(inputs, 't_H', 0)
+        flags = self._flags(j, H)
+        viol, obs = {}, {}
+        d = tempfile.mkdtemp(prefix='verif_c08_')
+        path = os.path.join(d, 'out.bc')
+        nr, ncol, nz = 3, 4, 2
+        try:
+            with warnings.catch_warnings():
+                warnings.simplefilter('ignore')
+                from PseudoNetCDF import PseudoNetCDFFile
+                from PseudoNetCDF.camxfiles.lateral_boundary.Write import \
+                    ncf2lateral_boundary
+                from PseudoNetCDF.camxfiles.lateral_boundary.Memmap import \
+                    lateral_boundary
+                f = PseudoNetCDFFile()
+                f.createDimension('TSTEP', self.T)
+                f.createDimension('LAY', nz)
+                f.createDimension('ROW', nr)
+                f.createDimension('COL', ncol)
+                f.createDimension('VAR', 4)
+                f.createDimension('DATE-TIME', 2)
+                tv = f.createVariable('TFLAG', 'i', ('TSTEP', 'VAR',
+                                                     'DATE-TIME'))
+                for t, (b, e) in enumerate(flags):
+                    tv[t, :, 0] = b[0]
+                    tv[t, :, 1] = b[1]
+                rng = np.random.RandomState(5)
+                data = {}
+                for en, n in (('WEST', nr), ('EAST', nr), ('SOUTH', ncol),
+                              ('NORTH', ncol)):
+                    dn = {'WEST': 'ROW', 'EAST': 'ROW', 'SOUTH': 'COL',
+                          'NORTH': 'COL'}[en]
+                    v = f.createVariable(en + '_O3', 'f',
+                                         ('TSTEP', dn, 'LAY'))
+                    data[en] = rng.rand(self.T, n, nz).astype('f')
+                    v[:] = data[en]
+                f.NAME, f.NOTE = 'BOUNDARY  ', 'x'.ljust(60)
+                f.ITZON, f.PLON, f.PLAT, f.IUTM = 0, 0., 0., 0
+                f.XORIG, f.YORIG, f.XCELL, f.YCELL = 0., 0., 1000., 1000.
+                f.CPROJ, f.TLAT1, f.TLAT2, f.ISTAG = 0, 0., 0., 0
+                f.SDATE, f.STIME = flags[0][0]
+                setattr(f, 'VAR-LIST', ''.join(
+                    (en + '_O3').ljust(16)
+                    for en in ('WEST', 'EAST', 'SOUTH', 'NORTH')))
+                try:
+                    ncf2lateral_boundary(f, path).close()
+                except Exception as ex:
+                    viol['writer-raised:' + type(ex).__name__] = \
+                        repr(ex)[:200]
+                    return {'obs': {}, 'violations': viol}
+                try:
+                    g = lateral_boundary(path)
+                    t2 = np.array(g.variables['TFLAG'][:, 0, :])
+                    e2 = np.array(g.variables['ETFLAG'][:, 0, :])
+                    for en in data:
+                        got = np.array(g.variables[en + '_O3'][:],
+                                       dtype='f')
+                        if got.shape != data[en].shape or \
+                                not np.array_equal(got, data[en]):
+                            viol['payload'] = '%s differs after the round ' \
+                                'trip' % en
+                except Exception as ex:
+                    viol['reader-raised:' + type(ex).__name__] = \
+                        repr(ex)[:200]
+                    return {'obs': {}, 'violations': viol}
+            obs['tflag'] = t2.tolist()
+            for t, (b, e) in enumerate(flags):
+                if int(t2[t, 0]) != b[0]:
+                    viol['TFLAG-date[%d]' % t] = 'wrote %r read %r' % (
+                        b, t2[t].tolist())
+                if int(t2[t, 1]) != b[1]:
+                    viol['TFLAG-time[%d]' % t] = 'wrote %r read %r' % (
+                        b, t2[t].tolist())
+                if int(e2[t, 0]) != e[0]:
+                    viol['ETFLAG-date[%d]' % t] = 'expected %r read %r' % (
+                        e, e2[t].tolist())
+                if int(e2[t, 1]) != e[1]:
+                    viol['ETFLAG-time[%d]' % t] = 'expected %r read %r' % (
+                        e, e2[t].tolist())
+        finally:
+            for fn in os.listdir(d):
+                os.remove(os.path.join(d, fn))
+            os.rmdir(d)
+        return {'obs': obs, 'violations': viol, 'start': (self.year, j, H)}
+
+
 def obligations(tier):
     obs = []
     years = (1999, 2004, 2069) if tier == 'quick' else \
@@ -259,4 +441,6 @@ def obligations(tier):
                 obs.append(TimeRoundTrip(y, T, et))
     from . import metwrite
     obs += metwrite.obligations(tier)
+    for y in years:
+        obs.append(LatBndTimeRoundTrip(y, 2))
     return obs
